@@ -290,6 +290,18 @@ func (c *compiler) compileParser(file ast.File) {
 		}
 		c.out.Parser.Types = types
 		c.out.Parser.MappedTokens = tokens
+		if name := c.out.Options.FileNode; name != "" {
+			var found bool
+			for _, t := range types.RangeTypes {
+				found = found || t.Name == name
+			}
+			for _, t := range c.out.Options.ExtraTypes {
+				found = found || t.Name == name
+			}
+			if !found {
+				c.Errorf(file.Header(), "fileNode refers to an unknown node type %v", name)
+			}
+		}
 
 		seenFlags := make(map[string]bool)
 		for _, t := range tokens {
